@@ -95,6 +95,11 @@ func runC20(env *core.Env) {
 	for _, p := range paths {
 		jobs = append(jobs, job{p, task, "task", "a fine summary", "json"})
 	}
+	// escapes into existing files outside the root: a sibling directory whose name merely starts with the project
+	// directory's name (created next to every worker's project below), the parent directory itself, an unrelated sibling
+	for _, p := range []string{"../@BASE@-backup/secret.txt", "docs/../../@BASE@-backup/secret.txt", "../@BASE@-backup/../@BASE@-backup/secret.txt", "../@BASE@x", "../other/secret.txt", "./../@BASE@-backup/secret.txt"} {
+		jobs = append(jobs, job{p, task, "task", "outside the root", "json"}, job{p, task, "task", "outside the root", "flags"})
+	}
 	// targets and summaries and input modes on a handful of paths
 	for _, p := range []string{"a", "docs/a", "./docs/../a", "link-file", "link-null", "docs", "../a", ".ergo/plans.jsonl"} {
 		for _, t := range [][2]string{{rich.E1, "epic"}, {rich.PrunedTask, "pruned"}, {rich.Unknown, "unknown"}, {rich.ByState["done"], "task"}, {rich.ByState["doing"], "task"}} {
@@ -116,6 +121,17 @@ func runC20(env *core.Env) {
 		}
 		j := jobs[i]
 		tree.Materialize(w.Proj)
+		st := tree // the store the replay artefact carries
+		outside := strings.Contains(j.path, "@BASE@") || strings.Contains(j.path, "../other/")
+		if outside {
+			// every project directory of the harness (workers, replay, conformance) is called "proj"
+			j.path = strings.ReplaceAll(j.path, "@BASE@", "proj")
+			st = tree.Clone()
+			st["../proj-backup/secret.txt"] = []byte("outside the project\n")
+			st["../other/secret.txt"] = []byte("outside the project\n")
+			st["../projx"] = []byte("outside the project\n")
+			st.Materialize(w.Proj)
+		}
 		var req core.Req
 		switch j.mode {
 		case "json":
@@ -127,9 +143,11 @@ func runC20(env *core.Env) {
 		}
 		res := w.Run(req)
 		atomic.AddInt64(&evals, 1)
-		conf.offer(w.Proj, tree, req, res)
+		if !outside {
+			conf.offer(w.Proj, tree, req, res)
+		}
 		bad := func(kind, detail string, as ...Assert) {
-			report(env, "C20 kind="+kind, fmt.Sprintf("path %q target=%s summary=%q mode=%s: %s", j.path, j.tkind, clipS(j.summary, 30), j.mode, detail), mkTrace(tree, kind, []core.Req{req}, as...))
+			report(env, "C20 kind="+kind, fmt.Sprintf("path %q target=%s summary=%q mode=%s: %s", j.path, j.tkind, clipS(j.summary, 30), j.mode, detail), mkTrace(st, kind, []core.Req{req}, as...))
 		}
 		if res.Panic || res.Timeout {
 			bad("crash-or-hang", res.String(), Assert{Kind: "exit_nonzero", Step: 1})
